@@ -34,23 +34,23 @@ import (
 // actually served.
 
 var c07Plans = [][]string{
-	{"block_time"},                                    // h
-	{"tx_nonce"},                                      // b
-	{"tx_status"},                                     // r
-	{"log_idx"},                                       // l
-	{"trace_action_from"},                             // t
-	{"block_time", "tx_status"},                       // h,r
-	{"tx_nonce", "tx_status"},                         // b,r
-	{"block_time", "log_idx"},                         // l,h
-	{"tx_nonce", "log_idx"},                           // l,b
-	{"block_time", "trace_action_from"},               // h,t
-	{"tx_nonce", "trace_action_from"},                 // b,t
-	{"tx_status", "trace_action_from"},                // r,t
-	{"block_time", "tx_status", "trace_action_from"},  // h,r,t
-	{"tx_nonce", "tx_status", "trace_action_from"},    // b,r,t
-	{"log_idx", "trace_action_from"},                  // l,t
-	{"block_time", "log_idx", "trace_action_from"},    // l,h,t
-	{"tx_nonce", "log_idx", "trace_action_from"},      // l,b,t
+	{"block_time"},                                   // h
+	{"tx_nonce"},                                     // b
+	{"tx_status"},                                    // r
+	{"log_idx"},                                      // l
+	{"trace_action_from"},                            // t
+	{"block_time", "tx_status"},                      // h,r
+	{"tx_nonce", "tx_status"},                        // b,r
+	{"block_time", "log_idx"},                        // l,h
+	{"tx_nonce", "log_idx"},                          // l,b
+	{"block_time", "trace_action_from"},              // h,t
+	{"tx_nonce", "trace_action_from"},                // b,t
+	{"tx_status", "trace_action_from"},               // r,t
+	{"block_time", "tx_status", "trace_action_from"}, // h,r,t
+	{"tx_nonce", "tx_status", "trace_action_from"},   // b,r,t
+	{"log_idx", "trace_action_from"},                 // l,t
+	{"block_time", "log_idx", "trace_action_from"},   // l,h,t
+	{"tx_nonce", "log_idx", "trace_action_from"},     // l,b,t
 }
 
 type c07HostileSc struct{ method, kind string }
@@ -789,7 +789,7 @@ func c07HostileReason(kind string) string {
 	case "http-status":
 		return "http-status"
 	case "renumber-above":
-		return "wrong-number"
+		return "wrong-number-only"
 	}
 	return "undecodable"
 }
